@@ -183,6 +183,7 @@ Next1 ==
        [] k = "ThreadStart" -> Flag(Quiet(e)) /\ p' = [p EXCEPT !.alive = p.alive \cup {e.name}]
        [] k = "ThreadExit" -> p' = [p EXCEPT !.alive = p.alive \ {e.name}] /\ NoFlag
        [] k = "Hang" -> Flag(<<"Hang">>) /\ p' = p
+       [] k = "Crash" -> Flag(<<"Crash">>) /\ p' = p
        [] k \in {"End", "Sched", "DevOpen", "DevClose", "CamTrig", "CamNoData"} -> p' = p /\ NoFlag
        [] OTHER -> Flag(<<"UnknownEvent">>) /\ p' = p
 
